@@ -657,7 +657,7 @@ class Model:
                                            np.arange(nfixed + 1)), (nfixed, nv))
                 primal_linear = sp.vstack((primal_linear, matrix_fixed))
                 primal_const = np.concatenate((primal_const,
-                                               primal.lb[indices_fixed]))
+                                               -primal.lb[indices_fixed]))
                 primal_sense = np.concatenate((primal_sense, np.ones(nfixed)))
 
             indices_free = np.where((primal.lb != 0) &
